@@ -77,19 +77,24 @@ fn ffi_case(rep: &Report, ffi: &Ffi, t: &Tuple) {
     let pw0 = pwbuf.clone();
     let salt0 = saltbuf.clone();
     let tail = 48; // bytes of the caller's buffer beyond dk_len
-    let mut out = vec![0xa5u8; GUARD + t.dk + tail + GUARD];
-    let res = guarded(|| unsafe {
-        (ffi.f)(pwbuf.as_ptr().add(GUARD), t.pw.len(), saltbuf.as_ptr().add(GUARD), t.salt.len(), t.n, t.r, t.p, out.as_mut_ptr().add(GUARD), t.dk);
-    });
-    if let Err(m) = res {
-        rep.violation("ffi/panic", t.json("ffi"), format!("exported scrypt panicked for {}: {}", t.descr(), m));
-        return;
-    }
-    if out[GUARD..GUARD + t.dk] != want[..] {
-        rep.violation("ffi/value-differs", t.json("ffi"), format!("exported C scrypt wrote a value different from RFC 7914 for {}", t.descr()));
-    }
-    if out[..GUARD].iter().any(|&b| b != 0xa5) || out[GUARD + t.dk..].iter().any(|&b| b != 0xa5) {
-        rep.violation("ffi/wrote-outside", t.json("ffi"), format!("exported C scrypt touched bytes outside the requested {} bytes ({})", t.dk, t.descr()));
+    // the caller's buffer may start at any address: try every offset modulo 8 (cheap tuples) or two of them
+    let offsets: Vec<usize> = if (t.n as u64) * (t.r as u64) * (t.p as u64) <= 256 { (0..8).collect() } else { vec![0, 3] };
+    for off in offsets {
+        let mut out = vec![0xa5u8; GUARD + 8 + t.dk + tail + GUARD];
+        let base = GUARD + off + (8 - (out.as_ptr() as usize + GUARD) % 8) % 8; // (address of out[base]) % 8 == off
+        let res = guarded(|| unsafe {
+            (ffi.f)(pwbuf.as_ptr().add(GUARD), t.pw.len(), saltbuf.as_ptr().add(GUARD), t.salt.len(), t.n, t.r, t.p, out.as_mut_ptr().add(base), t.dk);
+        });
+        if let Err(m) = res {
+            rep.violation("ffi/panic", t.json("ffi"), format!("exported scrypt panicked for {}: {}", t.descr(), m));
+            return;
+        }
+        if out[base..base + t.dk] != want[..] {
+            rep.violation("ffi/value-differs", t.json("ffi"), format!("exported C scrypt wrote a value different from RFC 7914 for {} (output buffer at address = {} mod 8)", t.descr(), off));
+        }
+        if out[..base].iter().any(|&b| b != 0xa5) || out[base + t.dk..].iter().any(|&b| b != 0xa5) {
+            rep.violation("ffi/wrote-outside", t.json("ffi"), format!("exported C scrypt touched bytes outside the requested {} bytes ({}; output buffer at address = {} mod 8)", t.dk, t.descr(), off));
+        }
     }
     if pwbuf != pw0 || saltbuf != salt0 {
         rep.violation("ffi/inputs-modified", t.json("ffi"), format!("exported C scrypt modified its inputs ({})", t.descr()));
@@ -216,6 +221,31 @@ pub fn run(rep: &'static Report) {
         ffi_case(rep, &ffi, t);
         rep.nontrivial(format!("ffi-{:?}", t).as_bytes());
     });
+    // histories: every ordered pair of calls from a small tuple alphabet, consecutively on ONE thread
+    // (state carried from one derivation to the next: cached tables, scratch buffers)
+    {
+        let alpha: Vec<Tuple> = [(64u32, 8u32, 1u32), (32, 8, 1), (16, 16, 1), (16, 12, 1), (16, 8, 2), (8, 3, 3), (128, 1, 1), (2, 1, 1), (1024, 2, 1), (512, 4, 1), (16, 1, 8), (4, 16, 4)]
+            .iter()
+            .map(|&(n, r_, p)| Tuple { pw: derive(seed, "c18-h-pw", 9), salt: derive(seed, "c18-h-salt", 7), n, r: r_, p, dk: 24 })
+            .collect();
+        let mut pairs = 0u64;
+        for a in &alpha {
+            for b in &alpha {
+                lib_case(rep, a);
+                lib_case(rep, b);
+                pairs += 1;
+            }
+        }
+        // and through the C ABI
+        for a in &alpha {
+            for b in &alpha {
+                ffi_case(rep, &ffi, a);
+                ffi_case(rep, &ffi, b);
+            }
+        }
+        rep.add_distinct(pairs);
+        rep.extra("consecutive_call_pairs_on_one_thread", json!(pairs));
+    }
     // aliasing: output buffer == salt buffer / password buffer (dk_len <= that input's length)
     let mut n_over = 0;
     for (pl, sl, dk) in [(40usize, 40usize, 32usize), (64, 33, 33), (100, 100, 64), (32, 16, 16)] {
